@@ -1,6 +1,8 @@
 import Driver.C16
 import Driver.Run
 import Driver.C10
+import Driver.C14
+import Driver.C20
 
 open Driver
 
@@ -11,6 +13,10 @@ def main (args : List String) : IO Unit :=
   | ["c16"] => runLoop () (fun st toks => match toks with
       | "cmp" :: a => (st, c16 a)
       | _ => (st, "bad-op"))
+  | ["place"] => runLoop () (fun st toks => match toks with
+      | cmd :: a => (st, c14 cmd a)
+      | _ => (st, "bad-op"))
+  | ["stats"] => runLoop () (fun st toks => (st, statsCmd toks))
   | ["heap"] => runLoop ({} : HeapSt) heapStep
   | ["par"] => runLoop ({} : Driver.Run.Sys) Driver.Run.parStep
   | ["seq"] => runLoop ({} : Driver.Run.SeqSys) Driver.Run.seqStep
